@@ -136,7 +136,7 @@ impl GitVcs {
 
     /// Get all commits from HEAD in topological order (only commits with tags)
     fn get_commits_in_topo_order(&self) -> Result<Vec<String>> {
-        let commits_output = self.run_git_command(&["rev-list", "--topo-order", "HEAD"])?;
+        let commits_output = self.run_git_command(&["rev-list", "--topo-order", "HEAD", "--"])?;
         let commits_output_only_with_tags =
             self.run_git_command(&["log", "--tags", "--no-walk", "--format=%H"])?;
 
@@ -206,7 +206,9 @@ impl GitVcs {
     }
 
     fn calculate_distance(&self, tag: &str) -> Result<u32> {
-        let output = self.run_git_command(&["rev-list", "--count", &format!("{tag}..HEAD")])?;
+        // "--": a work-tree path named like the tag (or like HEAD) must not make the revision ambiguous
+        let output =
+            self.run_git_command(&["rev-list", "--count", &format!("{tag}..HEAD"), "--"])?;
         output
             .parse::<u32>()
             .map_err(|e| ZervError::CommandFailed(format!("Failed to parse distance: {e}")))
@@ -238,8 +240,13 @@ impl GitVcs {
     fn get_tag_timestamp(&self, tag: &str) -> Result<Option<i64>> {
         // Get the commit date for both annotated and lightweight tags
         // Using ^{commit} to dereference the tag to the commit it points to
-        match self.run_git_command(&["show", "-s", "--format=%ct", &format!("{}^{{commit}}", tag)])
-        {
+        match self.run_git_command(&[
+            "show",
+            "-s",
+            "--format=%ct",
+            &format!("{}^{{commit}}", tag),
+            "--",
+        ]) {
             Ok(timestamp) => timestamp.parse::<i64>().map(Some).map_err(|e| {
                 ZervError::CommandFailed(format!("Failed to parse tag timestamp: {e}"))
             }),
@@ -251,7 +258,7 @@ impl GitVcs {
     fn get_tag_commit_hash(&self, tag: &str) -> Result<Option<String>> {
         // Use `git rev-list -n 1` to get the commit hash that the tag points to
         // This works for both annotated and lightweight tags
-        match self.run_git_command(&["rev-list", "-n", "1", tag]) {
+        match self.run_git_command(&["rev-list", "-n", "1", tag, "--"]) {
             Ok(hash) if !hash.trim().is_empty() => Ok(Some(hash.trim().to_string())),
             Ok(_) | Err(_) => Ok(None),
         }
